@@ -1413,13 +1413,26 @@ class Engine:
             for n in ast.walk(stmt.target):
                 if isinstance(n, ast.Name):
                     wnames.add(n.id)
-        bad = [n for n in wnames if n not in names] + [".".join(pth) for pth in wpaths if pth[0] not in names]
+        dotted = {tuple(n.split(".")) for n in names if "." in n}
+        bad = [n for n in wnames if n not in names] + [
+            ".".join(pth) for pth in wpaths
+            if pth[0] not in names and not any(pth[: len(d)] == d for d in dotted)]
         if bad:
             raise Unsupported(f"abstracted statement at line {self.line(stmt)} also writes {sorted(set(bad))}")
         for node in ast.walk(stmt):
             if isinstance(node, (ast.Return, ast.Raise, ast.Yield, ast.YieldFrom, ast.Break, ast.Continue)):
                 raise Unsupported(f"abstracted statement at line {self.line(stmt)} changes control flow")
         for n in names:
+            if "." in n:
+                # an attribute path of a heap object (e.g. self.nodes): its declared field type
+                from .loops import havoc_path
+
+                parts = n.split(".")
+                root = st.vars.get(parts[0])
+                if root is None:
+                    raise Unsupported(f"abstracted path {n}: unknown root")
+                havoc_path(self, st, stmt, root, tuple(parts[1:]), f"abs.{n}")
+                continue
             t = self.contract.hints.get(n)
             if t is None:
                 raise Unsupported(f"abstracted local {n} has no declared type")
@@ -1531,6 +1544,15 @@ class Engine:
                     raise Unsupported("unpack arity mismatch")
                 for e, p in zip(tgt.elts, parts):
                     self.assign_target(st, e, self.box(st, p), node)
+                return
+            if (isinstance(vv, V) and isinstance(vv.t, Ty.List) and len(tgt.elts) == 2 and isinstance(tgt.elts[1], ast.Starred)
+                    and not isinstance(tgt.elts[0], ast.Starred)):
+                # first, *rest = <sequence>: needs at least one element
+                self.oblige(st, vv.c[0] >= 1, f"unpacking needs at least one element at line {self.line(node)}", "safety", node)
+                self.assign_target(st, tgt.elts[0], self.box(st, self.elem(vv, z3.IntVal(0))), node)
+                p_ = z3.Int("rest!p")
+                rest = V(vv.t, [vv.c[0] - 1] + [z3.Lambda([p_], a[p_ + 1]) for a in vv.c[1:]])
+                self.assign_target(st, tgt.elts[1].value, self.alloc(st, rest), node)
                 return
             if isinstance(vv, V) and isinstance(vv.t, Ty.List):
                 ln = z3.simplify(vv.c[0])
